@@ -148,8 +148,11 @@ def family(t, sd):
     if t == 'thorough':
         ms += gen.seeded_models(9100 + sd, 30000, maxd=4, names=True, text_mode=True)
     ms = [m for m in ms if 'avg' not in str(m['model'])]   # avg is surface sugar, not a Model node
-    ms = [dict(m, model=gen.rename_vars(m['model'], gen.NAME_STYLES[i % 3])) if i % 3 else m for i, m in enumerate(ms)]
+    # names a compilation produces from indexed variables: x_{i-1} at i = 0 is x_-1, with several indexes x_-1_-1, p_-1_3
+    styles = gen.NAME_STYLES + [{'x': 'x_-1', 'y': 'y_0_-2', 'z': 'z_-1_-1', 'p': 'p_-1_3', 'q': 'q_2_-1_-5'}]
+    ms = [dict(m, model=gen.rename_vars(m['model'], styles[i % 4])) if i % 4 else m for i, m in enumerate(ms)]
     items += [{'model': m['model']} for m in ms]
+    items += [{'model': m['model']} for m in gen.diverging_family()]
     big = [1e-9, 1e9, -1e-9, 123456.789, 0.1, 1 / 3, -2.5e-7, 7e-5, 1e-5, -1e5]
     ls = gen.l_seeded(92, 1500 if t == 'quick' else 20000, named=True, offsets=True, satisfy=True, probe=('coef', 'rhs', 'obj', 'off'))
     ls += gen.l_seeded(93, 1000 if t == 'quick' else 10000, named=True, offsets=True, coefs=[0, 1, -1, 2.5] + big, rhss=[0, 1, -1] + big)
